@@ -207,10 +207,13 @@ def check_kmer_eq(chk, cfg, b, pol, what, rhs):
     if len(cmps) == 1 and an.is_call(cmps[0].ret, STORAGE_EQ):
         a0, a1 = cmps[0].ret[2]
         packed = [x for x in (a0, a1) if an.is_call(x, C08.FROM_BITSLICE)]
+        viafn = [x for x in (a0, a1) if x[0] == "F" and x[2] == "bs" and C08.is_pack(x[1]) is not None]
         other = [x for x in (a0, a1) if x == F(P(1), "bs")]
         if len(packed) == 1 and len(other) == 1:
             src = content_of(packed[0][2][0])
             ok = src == P(2)
+        elif len(viafn) == 1 and len(other) == 1:
+            ok = content_of(C08.is_pack(viafn[0][1])) == P(2)
     chk.ob("S-eq", what, ok, "must compare self's storage with S::from_bitslice(content(rhs)); got %s" % got, b["span"], sample=got)
     return 1
 
